@@ -151,7 +151,7 @@ class TypeMap:
                 return self.tup([self.c(a) for a in args])
             if b in ('std::optional', 'optional'):
                 return self.opt(self.c(args[0]))
-            if b in ('std::unique_ptr', 'unique_ptr'):
+            if b in ('std::unique_ptr', 'unique_ptr', 'std::shared_ptr', 'shared_ptr'):
                 # an owning, never-null pointer is modelled as the owned object itself (assumption: not null)
                 return self.c(args[0])
         if s in ('std::string', 'std::string_view', 'string', 'string_view'):
